@@ -232,7 +232,7 @@ ROUTE_TEXT = (' Route layer (DESIGN.md 1.7): every function and operator of the 
               'arriving as literals, from the cell, range and variable listeners, as results of custom functions, of nested evaluations and of '
               'IF/CHOOSE, as tuples, as the same object twice, with each separator and an omitted slot, with white space and line breaks, on a '
               'debug parser, twice on one parser, after an evaluation that did not complete, beside another parser that binds the same names; '
-              'the record must equal that of the plain call over variables (real code only; plus five definitional clauses where every route '
+              'the record must equal that of the plain call over variables (real code only; plus six definitional clauses where every route '
               'computes alike) and is compared with the Lean evaluator model of the routed formula (driver op evalf; the real-valued '
               'builtins enter it as Float host functions). Route independence is proved of the model (C09.call_sees_argument_values, '
               'C08.operator_sees_operand_outcomes, C12.if_true_hands_on, C18.choose_hands_on).')
